@@ -41,7 +41,8 @@ structure Head (o : Opts T) (report sched t0 a0 : T) (s : St T) : Prop where
   t0_le_report : t0 ≤ report
   t0_le_sched : t0 ≤ sched
   t0_le_adv : t0 ≤ s.tAdv
-  adv_le_sched : s.tAdv ≤ sched
+  adv_le_sched : s.tAdv ≤ sched ∨ (report ≤ sched ∧ s.tAdv = a0)
+  retNoEv_sched : s.scs = .returnedNoEvent → s.tAdv ≤ sched
   prev_le_report : s.tPrev ≤ report
   pend : s.scs = .completedWithEvent → t0 ≤ s.tLow
   retNoEv_adv : s.scs = .returnedNoEvent → s.tAdv ≤ report
@@ -55,7 +56,7 @@ structure Post (o : Opts T) (report sched t0 a0 : T) (st : Status) (s' : St T) :
   le_report : s'.time ≤ report
   le_sched : s'.time ≤ sched
   le_final : s'.time ≤ o.finalTime
-  adv_sched : s'.tAdv ≤ sched
+  adv_sched : s'.tAdv ≤ sched ∨ s'.tAdv = a0
   adv_final : s'.tAdv ≤ o.finalTime
   adv_mono : a0 ≤ s'.tAdv
   time_le_adv : s'.time ≤ s'.tAdv
@@ -65,7 +66,7 @@ structure Post (o : Opts T) (report sched t0 a0 : T) (st : Status) (s' : St T) :
       ∧ s'.useInterp = false
   trigger : st = .reachedEventTrigger →
       s'.scs = .returnedWithEvent ∧ s'.time = s'.tLow ∧ s'.tAdv = s'.tHigh ∧ s'.tLow < s'.tHigh
-      ∧ ¬ (s'.tLow < sched ∧ sched < s'.tHigh) ∧ ¬ (s'.tLow < o.finalTime ∧ o.finalTime < s'.tHigh)
+      ∧ (s'.tAdv ≤ sched → ¬ (s'.tLow < sched ∧ sched < s'.tHigh)) ∧ ¬ (s'.tLow < o.finalTime ∧ o.finalTime < s'.tHigh)
       ∧ ¬ (s'.tLow < s'.tRep ∧ s'.tRep < s'.tHigh)
   alive : st ≠ .endOfSimulation → s'.scs ≠ .finalReturned
 
@@ -88,7 +89,7 @@ theorem completedCase_ret {o : Opts T} {report sched t0 a0 : T} {taken : Nat} {s
     (h : Head o report sched t0 a0 s)
     (hs : s.scs = .completedNoEvent ∨ (s.scs = .returnedWithEvent ∧ s.useInterp = false))
     (e : completedCase o report sched taken s = .ret st s') : Post o report sched t0 a0 st s' := by
-  obtain ⟨h1, h2, h3, h4, h5, h6, h7, h8, h9, h10, h11, h12, h13⟩ := h
+  obtain ⟨h1, h2, h3, h4, h5, h6, h7, h8, h8b, h9, h10, h11, h12, h13⟩ := h
   unfold completedCase at e
   rcases hs with hs | ⟨hs, hu⟩
   · split at e
@@ -138,17 +139,17 @@ theorem phase_ret {o : Opts T} {report sched t0 a0 : T} {taken : Nat} {s s' : St
   split at e
   · cases e
   · rename_i hs
-    obtain ⟨h1, h2, h3, h4, h5, h6, h7, h8, h9, h10, h11, h12, h13⟩ := h
+    obtain ⟨h1, h2, h3, h4, h5, h6, h7, h8, h8b, h9, h10, h11, h12, h13⟩ := h
     split at e <;> ret_case e
   · rename_i hs
-    obtain ⟨h1, h2, h3, h4, h5, h6, h7, h8, h9, h10, h11, h12, h13⟩ := h
+    obtain ⟨h1, h2, h3, h4, h5, h6, h7, h8, h8b, h9, h10, h11, h12, h13⟩ := h
     split at e
     · split at e <;> ret_case e
     · ret_case e
   · rename_i hs
     refine completedCase_ret (s := { s with useInterp := false }) ?_ (Or.inr ⟨hs, rfl⟩) e
-    obtain ⟨h1, h2, h3, h4, h5, h6, h7, h8, h9, h10, h11, h12, h13⟩ := h
-    exact ⟨h1, h2, h3, fun _ => rfl, h5, h6, h7, h8, h9, h10, h11, h12, h13⟩
+    obtain ⟨h1, h2, h3, h4, h5, h6, h7, h8, h8b, h9, h10, h11, h12, h13⟩ := h
+    exact ⟨h1, h2, h3, fun _ => rfl, h5, h6, h7, h8, h8b, h9, h10, h11, h12, h13⟩
   · rename_i hs
     exact completedCase_ret h (Or.inl hs) e
 
@@ -233,33 +234,33 @@ theorem early_report {o : Opts T} {report sched t0 a0 : T} {s : St T}
     (h : Head o report sched t0 a0 s) (hu : s.useInterp = false) (h1 : s.scs ≠ .completedWithEvent)
     (h2 : s.scs ≠ .finalReturned) (e : s.tAdv = report) :
     Post o report sched t0 a0 .reachedReportTime s := by
-  obtain ⟨g1, g2, g3, g4, g5, g6, g7, g8, g9, g10, g11, g12, g13⟩ := h
+  obtain ⟨g1, g2, g3, g4, g5, g6, g7, g8, g8b, g9, g10, g11, g12, g13⟩ := h
   post_split <;> crunch
 
 theorem early_sched {o : Opts T} {report sched t0 a0 : T} {s : St T}
     (h : Head o report sched t0 a0 s) (hu : s.useInterp = false) (h1 : s.scs ≠ .completedWithEvent)
     (h2 : s.scs ≠ .finalReturned) (e : s.tAdv = sched) (hr : s.tAdv ≤ report) :
     Post o report sched t0 a0 .reachedScheduledEvent s := by
-  obtain ⟨g1, g2, g3, g4, g5, g6, g7, g8, g9, g10, g11, g12, g13⟩ := h
+  obtain ⟨g1, g2, g3, g4, g5, g6, g7, g8, g8b, g9, g10, g11, g12, g13⟩ := h
   post_split <;> crunch
 
 theorem head_clear_interp {o : Opts T} {report sched t0 a0 : T} {s : St T}
     (h : Head o report sched t0 a0 s) : Head o report sched t0 a0 { s with useInterp := false } := by
-  obtain ⟨g1, g2, g3, g4, g5, g6, g7, g8, g9, g10, g11, g12, g13⟩ := h
-  exact ⟨g1, g2, g3, fun _ => rfl, g5, g6, g7, g8, g9, g10, g11, g12, g13⟩
+  obtain ⟨g1, g2, g3, g4, g5, g6, g7, g8, g8b, g9, g10, g11, g12, g13⟩ := h
+  exact ⟨g1, g2, g3, fun _ => rfl, g5, g6, g7, g8, g8b, g9, g10, g11, g12, g13⟩
 
 theorem head_step {o : Opts T} {report sched t0 a0 : T} {s : St T} {a : Ans T}
     (h : Head o report sched t0 a0 s) (hr : s.tAdv ≤ report) (hne : s.tAdv ≠ report)
     (ha : ansOK o report sched s a = true) :
     Head o report sched t0 a0 (applyStep report s a) := by
-  obtain ⟨g1, g2, g3, g4, g5, g6, g7, g8, g9, g10, g11, g12, g13⟩ := h
+  obtain ⟨g1, g2, g3, g4, g5, g6, g7, g8, g8b, g9, g10, g11, g12, g13⟩ := h
   obtain ⟨a1, a2, a3, a4⟩ := ansOK_spec ha
   have hlt : s.tAdv < report := lt_of_le_of_ne hr hne
   unfold applyStep
   cases hev : a.event
-  · refine ⟨?_, ?_, ?_, ?_, ?_, ?_, ?_, ?_, ?_, ?_, ?_, ?_, ?_⟩ <;> simp_all <;> order
+  · refine ⟨?_, ?_, ?_, ?_, ?_, ?_, ?_, ?_, ?_, ?_, ?_, ?_, ?_, ?_⟩ <;> simp_all <;> (first | order | grind)
   · have a5 := a4 hev
-    refine ⟨?_, ?_, ?_, ?_, ?_, ?_, ?_, ?_, ?_, ?_, ?_, ?_, ?_⟩ <;> simp_all <;> order
+    refine ⟨?_, ?_, ?_, ?_, ?_, ?_, ?_, ?_, ?_, ?_, ?_, ?_, ?_, ?_⟩ <;> simp_all <;> (first | order | grind)
 
 theorem loop_post {o : Opts T} {report sched t0 a0 : T} :
     ∀ (orc : List (Ans T)) (taken : Nat) (s : St T) {st : Status} {s' : St T} {rest : List (Ans T)},
@@ -330,17 +331,20 @@ theorem loop_post {o : Opts T} {report sched t0 a0 : T} :
 structure Legal (report sched : T) (s : St T) : Prop where
   report_ge : s.time ≤ report
   sched_ge : s.time ≤ sched
-  sched_adv : s.tAdv ≤ sched
+  sched_adv : s.tAdv ≤ sched ∨ report ≤ sched
 
 theorem head_of_inv {o : Opts T} {report sched : T} {s : St T} (hi : Inv o s) (hl : Legal report sched s)
     (hn : s.startCI = false) (hf : s.scs ≠ .finalReturned) : Head o report sched s.time s.tAdv s := by
   obtain ⟨i1, i2, i3, i4, i5, i6, i7, i8⟩ := hi
   obtain ⟨l1, l2, l3⟩ := hl
   have i5' := i5 hf
-  refine ⟨i1, i2, i3, i6, l1, l2, ?_, l3, ?_, ?_, ?_, le_refl _, hn⟩
+  refine ⟨i1, i2, i3, i6, l1, l2, ?_, l3.imp id (fun h => ⟨h, rfl⟩), ?_, ?_, ?_, ?_, le_refl _, hn⟩
   · unfold St.time; split
     · rename_i hu; exact (i5' hu).2
     · exact le_refl _
+  · intro hs
+    have := i6 hs
+    simpa [St.time, this] using l2
   · unfold St.time at l1; split at l1
     · rename_i hu; exact le_trans (i5' hu).1 l1
     · exact le_trans i1 l1
